@@ -249,6 +249,7 @@ REG.ghosts['n_runs'] = 'int'            # executions started by batch_run so far
 REG.ghosts['n_built'] = 'int'           # models built inside one execution
 REG.ghosts['run_arg'] = 'map[any]'      # log: argument dictionary of execution k
 REG.ghosts['run_res'] = 'map[any]'      # log: result of execution k
+REG.ghosts['iter_pos'] = 'map[int]'     # cursor of an iterator modelled as the list of what it yields (Pool.imap*)
 
 
 def build_model_post(model_cls, kwargs, result):
@@ -348,9 +349,11 @@ def batch_serial_inv(collectors, old, i, skwargs_with_repetition, results):
                         len(results) == i and all(same(results[j], ghost().run_res[j]) for j in range(0, i))))
 
 
-def batch_par_inv(collectors, old, i, skwargs_with_repetition, results, outs):
+def batch_par_inv(collectors, old, i, skwargs_with_repetition, results, pending):
     K = skwargs_with_repetition
+    outs = pending
     return (0 <= i and i <= len(outs) and len(outs) == len(K) and is_fresh(results, old) and ghost().n_runs == len(K)
+            and ghost().iter_pos[pending] == i and is_fresh(pending, old) and pending is not results
             and all(same(ghost().run_arg[j], K[j]) for j in range(0, len(K)))
             and implies(is_none(collectors), len(results) == 0)
             and implies(not is_none(collectors), len(results) == i))
@@ -389,6 +392,6 @@ contract('Batching.batch_run',
          locals={'results': 'list[any]'}, roles={'results': 'emptylist#0'},
          ghost_init='batch_init', view='batch',
          loops={0: dict(invariant=[(batch_serial_inv, ['C15'])], index='i', modifies=['results'] + BATCH_MODS),
-                1: dict(invariant=[(batch_par_inv, ['C15'])], index='i', iter_name='outs', modifies=['results'])},
+                1: dict(invariant=[(batch_par_inv, ['C15'])], index='i', modifies=['results', 'ghost:iter_pos'])},
          cases=[dict(name='nocollector', params={'collectors': 'none'}), dict(name='collector', params={'collectors': 'str'})],
          native=False, props=['C15'])
